@@ -240,3 +240,22 @@ def c19(work, tier, seed, replay):
     return dict(violations=viol, coverage=cov, assumptions=ASSUME_CODEC[:1] + [
         "three-way verdict: inputs RFC 1035 gives no meaning to (length octets 64..191, pointer target not strictly earlier) may be rejected or read naturally",
         "names are compared as byte strings with '.' separators, the representation the library exposes"])
+
+
+@prop("C17")
+def c17(work, tier, seed, replay):
+    if replay:
+        return replay_file(work, "Trace_Dhcp4Opts", replay)
+    vh = common.build_vh(work)
+    mc = common.require_mc(common.tlc(work, "MC_Dhcp4Opts", cfg="MC_Dhcp4Opts" + ("_thorough" if tier == "thorough" else ""), workers=8, timeout=2400), "MC_Dhcp4Opts")
+    tr, stats = common.vh_gen(work, vh, "c17", seed, tier)
+    viol, tstates, n = validate(work, "Trace_Dhcp4Opts", tr, stats, procs=8 if tier == "quick" else 12)
+    cov = codec_coverage([mc], stats, tstates, n,
+                         "for each of the 28 typed accessors: the option absent, and present (through an encode/decode of the packet) with every "
+                         "raw length 0..64 as all-zero, all-ones and type-structured random bytes (plausible route widths, class lengths, "
+                         "sub-option framings, NUL patterns), long values 255..512 that travel as several instances; DomainSearch on random "
+                         "label wire forms; set->get through every typed constructor, directly and after a wire trip; non-trivial = option "
+                         "present; distinct by accessor + raw value", False)
+    return dict(violations=viol, coverage=cov, assumptions=ASSUME_CODEC[:1] + [
+        "a zero-length option value decoded from the wire is stored as nil and reads as 'absent' through the accessors; the generator goes through the wire",
+        "duration accessors are called with a default of 1.5 s, which no whole-second value can equal"])
